@@ -77,6 +77,30 @@ CLAIMS = {
                 "encoding, so any truthiness guard on a value path yields a counter-model.",
                 note="constructor arguments of inferred variables (C11) are outside this check; T1, T3 tree-shape assumptions"),
 }
+CLAIMS.update({
+    'C04': dict(level=P, text="Quiescent-state invariant by exit paths: An.evaluate and The.evaluate reset the whole expression "
+                "graph on every exit (normal, abandoned at a yield, exception out of user code); _reset_cache_ resets the node "
+                "and every child, _reset_only_my_cache_ re-creates both de-duplication sets, the per-parent sets and the "
+                "evaluation parent; a coverage lookup (SeenSet.check, IndexedCache.check) never records coverage, so an "
+                "abandoned evaluation leaves no cache entry that claims completeness. Histories then follow by induction.",
+                note="the bounded history stand-in (native, random histories of full / partial / aborted evaluations incl. a "
+                     "domain listing an object twice) exercises what the induction argues and is not counted as proved; "
+                     "operator caches are keyed by object identity: data mutated between evaluations is outside 'unchanged data'"),
+    'C05': dict(level=P, text="What the operators write into their result caches (cache on, nothing covered yet): the truth value "
+                "stored with a row is the one the row is yielded with and the stored binding is part of that row "
+                "(Comparator, AND, ElseIf); coverage is recorded only by insertions (SeenSet.add / check contracts, "
+                "IndexedCache.check), never by lookups.",
+                note="the replay side (hit branch == miss branch under coherence) depends on IndexedCache.retrieve, which is "
+                     "outside the executor's heap model and has a recorded defect (C20); it is covered by the bounded stand-in "
+                     "'cache on vs off' only, labelled bounded"),
+    'C20': dict(level='other', text="SeenSet.add / check / clear and IndexedCache.check are proved against the abstract view "
+                "(list of stored constraints + all_seen): check(q) <=> all_seen or some stored constraint is contained in q, "
+                "lookups are pure, add appends, clear empties. IndexedCache.insert / retrieve (nested-dict trie, recursive "
+                "generator) are outside the executor's heap model: exhaustive bounded stand-in on the real code (2 keys quick / "
+                "3 keys thorough, alphabet 2, up to 2 / 3 inserts, every lookup), which finds the recorded retrieve defect.",
+                note="level other: part bounded; known finding: retrieve follows either the concrete or the wildcard branch of "
+                     "a level, never both, so stored entries that match a lookup are missed"),
+})
 NOT_APPLICABLE = {}
 
 
@@ -106,6 +130,10 @@ ORACLES = {
             _oracle('the() with predicates, inside a query block', 80, 800, kind='the', inside='query', vocab=['pred', 'cmp'], n=4, distinct_sizes=True),
             _oracle('an() with predicates and attribute conditions', 100, 1500, nvars=1, depth=2, vocab=['pred', 'cmp', 'name'], neg=True)],
     'C15': [_oracle('an(entity) sub-query as a condition, and/or', 150, 2000, kind='subquery')],
+    'C04': [_oracle('histories of full / partial / aborted evaluations (result cache on)', 200, 3000, kind='history'),
+            _oracle('histories (result cache off)', 100, 1500, kind='history', caching=False),
+            _oracle('histories over a domain that lists an object twice', 100, 1500, kind='history', duplicates=True)],
+    'C05': [_oracle('result cache on vs off, first evaluation and re-evaluation', 250, 4000, kind='cache')],
     'C16': [_oracle('flatten, parent selected, no condition', 40, 400, kind='flatten', with_cond=False, select_parent=True),
             _oracle('flatten, parent selected, condition', 40, 400, kind='flatten', with_cond=True, select_parent=True),
             _oracle('flatten only, condition', 40, 400, kind='flatten', with_cond=True, select_parent=False, falsy=True)],
